@@ -821,7 +821,7 @@ class CurveEngine:
 
             def usable(c):
                 return c.ctrlpoints is not None and c.weights is None and self.alpha(c) is not None and \
-                    (self.polyline_like(c) or (c.degree <= 2 and c.npts <= 4 and c.degree >= 1))
+                    (self.polyline_like(c) or (c.degree <= 2 and c.npts <= 4))   # incl. piecewise-constant (degree 0) operands
             cands = [c for c in self.world if usable(c)]
             if len(cands) < 2:
                 return None, None, False, kind
